@@ -230,7 +230,14 @@ Definition eval_round (h : Z -> chandef -> list Z) (cfgs : list cfg) (a : acc) (
                        | RepOk => bool_decide (m_ret = rd_retirement rd) && bool_decide (m_reps = rd_reports rd)
                        | _ => false end in
       let promoted := (seq >? 1) && bool_decide (o_stage prev = Staging) && negb (bool_decide (o_stage next = Staging)) in
-      let removed := if seq <=? 1 then [] else removed_ids (c_f cf) (match accept_observations (c_has_pred cf) aos with Ok (_, l) => l | _ => [] end) in
+      let removed_all := if seq <=? 1 then [] else removed_ids (c_f cf) (match accept_observations (c_has_pred cf) aos with Ok (_, l) => l | _ => [] end) in
+      (* "voted out" excuses a broken chain / handover only for a removal the protocol intends: in a round whose correct
+         observations come from the real Plugin.Observation and with at most f faulty observers, more than f removal
+         votes need a correct voter, and a correct node only votes to remove a channel that is DEFINED in the previous
+         outcome; a validity start that disappears any other way is a violation, not an excuse *)
+      let faulty_n := length (filter (fun p : observation * bool => negb (snd p)) (decodable (rd_aos rd))) in
+      let removed := if hand_built || rd_scripted rd || (c_f cf <? faulty_n)%nat then removed_all
+                     else filter (fun c => bool_decide (is_Some (o_defs prev !! c))) removed_all in
       (* C03 *)
       let last0 := if promoted then ∅ else foldr delete (is_last st) removed in
       let c03 := c03_reports_ok (c_pver cf) last0 (rd_reports rd) in
